@@ -82,6 +82,7 @@ func (r *run) capture(c fiber.Ctx, cs Case, probe bool) {
 	add("Query", c.Query("name"), cs.QName)
 	add("Get", c.Get("X-Name"), cs.XName)
 	add("Get", c.Get("Content-Type"), "")
+	add("Get", c.Get("Accept"), probeAccept)
 	add("Cookies", c.Cookies("ck"), cs.Ck)
 	add("Host", c.Host(), cs.H1+"."+cs.H2+".example.com")
 	add("Hostname", c.Hostname(), cs.H1+"."+cs.H2+".example.com")
@@ -176,6 +177,9 @@ func (r *run) capture(c fiber.Ctx, cs Case, probe bool) {
 	r.caps = append(append(append([]capt{}, r.ehCaps...), r.preCaps...), caps...)
 }
 
+// probeAccept: parameter names in capitals (negotiation compares them without regard to case)
+const probeAccept = "text/html;Level=1;Charset=UTF-8;q=0.5, */*;Q=0.1"
+
 func (cs Case) probeWire() string {
 	body := "name=" + cs.FName + "&fname=" + cs.FName + "&tags=" + cs.T1
 	ct := "application/x-www-form-urlencoded"
@@ -187,8 +191,8 @@ func (cs Case) probeWire() string {
 	if cs.CEnc != "" {
 		ce = "Content-Encoding: " + cs.CEnc + "\r\n"
 	}
-	return fmt.Sprintf("POST /u/%s/%s?probe=1&name=%s&tags=%s&tags=%s HTTP/1.1\r\nHost: %s.%s.example.com\r\nX-Name: %s\r\nCookie: ck=%s; other=%s\r\nX-Forwarded-For: 1.2.3.4, 5.6.7.8\r\n%sContent-Type: %s\r\nContent-Length: %d\r\n\r\n%s",
-		cs.ID, cs.Rest, cs.QName, cs.T1, cs.T2, cs.H1, cs.H2, cs.XName, cs.Ck, cs.T1, ce, ct, len(body), body)
+	return fmt.Sprintf("POST /u/%s/%s?probe=1&name=%s&tags=%s&tags=%s HTTP/1.1\r\nHost: %s.%s.example.com\r\nX-Name: %s\r\nAccept: %s\r\nCookie: ck=%s; other=%s\r\nX-Forwarded-For: 1.2.3.4, 5.6.7.8\r\n%sContent-Type: %s\r\nContent-Length: %d\r\n\r\n%s",
+		cs.ID, cs.Rest, cs.QName, cs.T1, cs.T2, cs.H1, cs.H2, cs.XName, probeAccept, cs.Ck, cs.T1, ce, ct, len(body), body)
 }
 
 func (f Filler) wire() string {
